@@ -230,7 +230,7 @@ fn check(id: &str, tier: Tier, seed: u64) -> i32 {
         })
         .collect();
     let nda_exe = engine::verif_root().join("harness/target/nda/vp");
-    let nda_shards = if nda_exe.exists() && spawn_shards > 0 && std::env::var("VERIF_NO_NDA").is_err() { NDA_SHARDS.min(nshards) } else { 0 };
+    let nda_shards = if nda_exe.exists() && spawn_shards > 0 && std::env::var("VERIF_NO_NDA").map(|v| v.is_empty()).unwrap_or(true) { NDA_SHARDS.min(nshards) } else { 0 };
     for shard in 0..nda_shards {
         specs.push(Spec {
             label: format!("nda-{shard}"),
